@@ -63,7 +63,7 @@ def frame(rng, target, kind=None, size=None):
                 fill = name_of(rng, 2000)
                 def build(k, val=val, fill=fill):
                     s = jb({"method": "org.example.Put", "parameters": {"name": "@@", "value": val}})
-                    return s.replace(b"@@", (fill[:k] + esc).encode())
+                    return s.replace(b"@@", ((fill * (k // max(1, len(fill)) + 1))[:k] + esc).encode())
             if kind == "flags":
                 fl = rng.choice([{"oneway": True}, {"more": True}, {"upgrade": True},
                                  {"oneway": False, "more": True}])
@@ -93,7 +93,7 @@ def frame(rng, target, kind=None, size=None):
                 fill = name_of(rng, 2000)
                 def build(k, idv=idv, fill=fill):
                     s = jb({"parameters": {"id": idv, "note": "@@"}})
-                    return s.replace(b"@@", (fill[:k] + esc).encode())
+                    return s.replace(b"@@", ((fill * (k // max(1, len(fill)) + 1))[:k] + esc).encode())
         if kind == "padded":
             pre, post = rng.choice(WS + [b""]), rng.choice(WS)
             inner2 = build
